@@ -10,6 +10,7 @@ processed, as (service, round) pairs; `is200 c e` says the answer to request `e`
 -/
 import ArvVerif.Proofs.C11_Trace
 import ArvVerif.Proofs.C11_Load
+import ArvVerif.Proofs.C11_Order
 namespace ArvVerif.C11
 
 /-- A nil error comes only with at least `want` replicas confirmed by the 200 answers that were
@@ -169,6 +170,34 @@ theorem C11_attempts_contiguous (c : Cfg) (sv : List Srv) (picks : List Nat) (r 
     by_cases hjn : j = n + 1
     · subst hjn; exact hm
     · exact ih x (ht.respReq _ (ht.reqPrev x n hm).1) j (by omega)
+
+/-- **The k-th request a service receives is its round-k request.** With distinct services, the
+rounds of the requests sent to a service `x`, listed in the order the requests were sent
+(`roundsOf`), are exactly 0, 1, …, n-1 where n is the number of requests to `x`. So a scripted
+service that answers "my k-th request" (the correspondence driver, and the property's "per-attempt
+outcome") and the model's `script x k` (answer to the round-k request) are the same thing, and
+"attempt" in the property text can be read either way. -/
+theorem C11_kth_request (c : Cfg) (sv : List Srv) (picks : List Nat) (r : Res) (s : St)
+    (hnd : sv.Nodup) (h : put c sv picks = some (r, s)) (x : Srv) :
+    roundsOf s.reqLog x = List.range (reqCount s.reqLog x) ∧
+    (∀ (k : Nat) (e : Srv × Nat), (s.reqLog.reverse.filter (fun e => e.1 == x))[k]? = some e → e = (x, k)) := by
+  have ho := (run_preserved (orderedOnce_preserved c) _ _ _ _ _ (orderedOnce_init c sv hnd) h).2
+  have hc := C11_attempts_contiguous c sv picks r s h
+  have h1 := roundsOf_eq_range s.reqLog x ho.sorted ho.nodup (fun k hk j hj => hc k x hk j hj)
+  refine ⟨h1, ?_⟩
+  intro k e he
+  have hmem : e ∈ s.reqLog.reverse.filter (fun e => e.1 == x) := List.mem_of_getElem? he
+  have hx : e.1 = x := by
+    rw [List.mem_filter, beq_iff_eq] at hmem; exact hmem.2
+  have h2 : (roundsOf s.reqLog x)[k]? = some e.2 := by
+    unfold roundsOf; rw [List.getElem?_map, he]; rfl
+  rw [h1] at h2
+  obtain ⟨_, hv⟩ := List.getElem?_eq_some_iff.mp h2
+  rw [List.getElem_range] at hv
+  cases e with
+  | mk a b =>
+    simp only at hx hv
+    rw [hx, hv]
 
 /-- When the client gives up, it has asked every writable service, and every service that gave a
 transient answer has been asked again until the retry limit. -/
@@ -520,6 +549,9 @@ example : (put cAllFail [0, 1] []).map (fun r => (r.1, r.2.reqLog.length, reqCou
 /-- `C11_retry_rule`: a run with a second-round request, on a duplicate-free service list -/
 example : [0, 1].Nodup ∧ (put c2 [0, 1] [1, 0]).map (fun r => r.2.reqLog) =
     some [(0, 1), (1, 0), (0, 0)] := by decide
+/-- `C11_kth_request`: service 0 is asked in rounds 0 and 1, in that order -/
+example : [0, 1].Nodup ∧ (put c2 [0, 1] [1, 0]).map (fun r => (roundsOf r.2.reqLog 0, roundsOf r.2.reqLog 1)) =
+    some ([0, 1], [0]) := by decide
 /-- `C11_writable_map_sound`: a list with a read-only and a writable service -/
 example : (load false [⟨['a'], ['h'], 1, false, "disk".toList, true⟩,
                        ⟨['b'], ['g'], 2, true, "proxy".toList, false⟩]).writable =
